@@ -187,6 +187,15 @@ def r2(repo, chk):
     rs = [r for r in v.raises("ValueError")]
     ok = any(any(" != " in a[0] and "encode_address(addr)" in a[0] and a[1] for a in v.guard_atoms_x(r) + v.guard_atoms(r)) for r in rs)
     chk.ob("R2", "validate_token raises when the token was issued to another address", ok, "address comparison no longer guards a raise: a token works from any address", v.loc(v.node))
+    # the key tokens are sealed with belongs to one handler: generated in its constructor, by the library call itself (a
+    # shared / cached key makes every server instance in the process accept tokens it never issued)
+    hi = Fn(repo, "quic.retry:QuicRetryTokenHandler.__init__")
+    keys = [v for st, t, v in hi.assigns(chain="self._key")]
+    rm = repo.mod("quic.retry")
+    module_level = [norm(n)[:60] for n in rm.tree.body if isinstance(n, (ast.Assign, ast.AnnAssign)) and "generate_private_key" in norm(n)]
+    ok = len(keys) == 1 and isinstance(keys[0], ast.Call) and call_name(keys[0]) == "rsa.generate_private_key" and not module_level and not [a for a in hi.node.args.args[1:]]
+    others = [q for q in rm.functions if q.startswith("QuicRetryTokenHandler.") and not q.endswith("__init__") and Fn(repo, "quic.retry:" + q).assigns(chain="self._key")]
+    chk.ob("R2", "every QuicRetryTokenHandler generates its own token key in its constructor", ok and not others, f"self._key = {[norm(k)[:50] for k in keys]}: a token minted by one server is accepted as address validation by another", hi.loc(hi.node))
     c = Fn(repo, "quic.retry:QuicRetryTokenHandler.create_token")
     txt = " ".join(norm(s) for s in c.stmts())
     ok = "encode_address(addr)" in txt and "original_destination_connection_id" in txt and "retry_source_connection_id" in txt and ".encrypt(" in txt
